@@ -45,6 +45,8 @@ pub const COMPOSE_LEAVES: &[&str] = &[
     "(\"aébc\" <~ 1..2)", "(\"aébc\" <~ 2..0)", "(\"aébc\" <~ --1..1)", "(\"aébc\" <~ 2..99)",
     "('abcd' <~ 1..2)", "('abcd' <~ 2..0)", "('abcd' <~ --1..1)", "('abcd' <~ 2..99)",
     "(:a.b.c <~ 0..1)", "(:a.b.c <~ 2..0)", "(:a.b.c <~ 1..99)",
+    // reversed by more than the length of the data
+    "((1 2 3 4) <~ 3..0)", "((1 <> 2 <> 3) <~ 9..0)", "(\"aébc\" <~ 3..0)", "('abcd' <~ 9..1)", "(:a.b.c <~ 5..0)",
 ];
 /// operators that build a compound value from two operands
 pub const COMPOSE_BUILD: &[&str] = &["<>", "<~", "=", ",", " ", "..", "~#", "."];
@@ -82,7 +84,7 @@ pub fn compose_program(i: u64) -> String {
     }
 }
 
-fn deep(n: usize, kind: usize) -> String {
+pub fn deep(n: usize, kind: usize) -> String {
     match kind {
         0 => format!("{}5{}", "(".repeat(n), ")".repeat(n)),
         1 => format!("{}5{}{}", "{".repeat(n), "}".repeat(n), "~~".repeat(n)),
@@ -92,7 +94,109 @@ fn deep(n: usize, kind: usize) -> String {
         5 => format!("{} == {}", vec!["(1 2)"; n].join(" <> "), vec!["(1 2)"; n].join(" <> ")),
         6 => format!("({}) ~# \"\"", vec!["(1 2)"; n].join(" <> ")),
         7 => format!("{}", vec![":a"; n.min(120)].join(".")),
-        _ => format!("({}) .|", vec!["1"; n].join(" ")),
+        8 => format!("({}) .|", vec!["1"; n].join(" ")),
+        // concatenations nested to the left and to the right: measured, indexed, looked up in, cast, compared
+        9 => format!("({}) .|", vec!["1"; n].join(" <> ")),
+        10 => format!("({}) . {}", vec!["1"; n].join(" <> "), n / 2),
+        11 => format!("({}{}) .|", "1 <> (".repeat(n.saturating_sub(1)), format!("1{}", ")".repeat(n.saturating_sub(1)))),
+        12 => format!("({}{}) . {}", "1 <> (".repeat(n.saturating_sub(1)), format!("1{}", ")".repeat(n.saturating_sub(1))), n / 2),
+        13 => format!("({}{}) ~# (,)", "1 <> (".repeat(n.saturating_sub(1)), format!("1{}", ")".repeat(n.saturating_sub(1)))),
+        14 => format!("({}{}) . zz", "(:a = 1) <> (".repeat(n.saturating_sub(1)), format!("(:b = 2){}", ")".repeat(n.saturating_sub(1)))),
+        15 => {
+            let right = format!("({}{})", "1 <> (".repeat(n.saturating_sub(1)), format!("1{}", ")".repeat(n.saturating_sub(1))));
+            format!("{} == ({})", right, vec!["1"; n].join(" <> "))
+        }
+        _ => format!("{}1{}", "(1 = ".repeat(n), ")".repeat(n)),
+    }
+}
+
+pub const DEEP_KINDS: usize = 17;
+pub const DEEP_KIND_NAMES: [&str; 17] = [
+    "nested-groups", "nested-applied-expressions", "pair-chain", "nested-lists-compared", "concatenation-of-lists", "concatenations-of-lists-compared", "concatenation-of-lists-cast-to-text", "symbol-chain", "long-list-measured",
+    "left-nested-concatenation-measured", "left-nested-concatenation-indexed", "right-nested-concatenation-measured", "right-nested-concatenation-indexed", "right-nested-concatenation-cast-to-list", "right-nested-concatenation-looked-up-in",
+    "right-and-left-nested-concatenations-compared", "nested-pairs",
+];
+pub const DEEP_SIZES: &[usize] = &[1, 2, 8, 50, 150, 400, 2000];
+/// stack of the thread deep data is built and executed on (the runtime works on the data object's own stacks; stack use
+/// growing with the depth of a value overflows this at the larger sizes and aborts the worker)
+pub const DEEP_STACK: usize = 256 * 1024;
+
+/// like `execute_all`, but build and run happen on a thread with a small stack; the result is read back (by the harness's
+/// own recursive reader) on the normal stack
+pub fn execute_deep(text: &str, ctx: &mut CaseCtx, max_steps: usize) {
+    ctx.render(|| format!("{:?}", if text.len() > 120 { format!("{}… ({} bytes)", &text[..100], text.len()) } else { text.to_string() }));
+    let parsed = match front_end(text, None) {
+        Ok(p) => p,
+        Err(_) => {
+            ctx.class("not-accepted");
+            return;
+        }
+    };
+    let input = V::List(vec![pair(sym("k"), V::Int(3)), V::Int(5)]);
+    fn on_small_stack<D: GD + Send>(d: &mut D, parsed: &garnish_lang_compiler::parse::ParseResult, input: &V, max_steps: usize) -> Result<usize, (&'static str, Panicked)> {
+        std::thread::scope(|sc| {
+            std::thread::Builder::new()
+                .stack_size(DEEP_STACK)
+                .spawn_scoped(sc, || {
+                    let b = match build_g(parsed, d) {
+                        Err(p) => return Err(("build", p)),
+                        Ok(Err(_)) => return Ok(0),
+                        Ok(Ok(b)) => b,
+                    };
+                    let ia = match guard("store", || value::build_value(d, input)) {
+                        Err(p) => return Err(("store", p)),
+                        Ok(Err(_)) => return Ok(0),
+                        Ok(Ok(a)) => a,
+                    };
+                    match run_program(d, *b.jump_index(), Some(ia), max_steps) {
+                        RunEnd::Panic(p) => Err(("run", p)),
+                        RunEnd::Finished(n) => Ok(n),
+                        RunEnd::Error(_) => Ok(3),
+                        RunEnd::StepLimit => Ok(max_steps),
+                    }
+                })
+                .expect("spawn deep-data thread")
+                .join()
+                .expect("deep-data thread")
+        })
+    }
+    let mut executed = 0usize;
+    for imp in Impl::BOTH {
+        ctx.sub_evals += 1;
+        let outcome = match imp {
+            Impl::Simple => {
+                let mut d = new_simple_hosted(HostState::default());
+                let r = on_small_stack(&mut d, &parsed, &input, max_steps);
+                if r.is_ok() {
+                    if let Some(a) = garnish_lang_traits::GarnishData::get_current_value(&d) {
+                        if let Err(p) = guard("readback", || value::readback(&d, a)) {
+                            ctx.fail(format!("readback-panic@{}", p.loc), format!("{} on Simple: {}", text.len(), p.msg));
+                        }
+                    }
+                }
+                r
+            }
+            Impl::Basic => {
+                let mut d = new_basic_hosted(HostState::default());
+                let r = on_small_stack(&mut d, &parsed, &input, max_steps);
+                if r.is_ok() {
+                    if let Some(a) = garnish_lang_traits::GarnishData::get_current_value(&d) {
+                        if let Err(p) = guard("readback", || value::readback(&d, a)) {
+                            ctx.fail(format!("readback-panic@{}", p.loc), format!("{} on Basic: {}", text.len(), p.msg));
+                        }
+                    }
+                }
+                r
+            }
+        };
+        match outcome {
+            Ok(steps) => executed = executed.max(steps),
+            Err((stage, p)) => ctx.fail(format!("{}-panic@{}", stage, p.loc), format!("program of {} bytes on {}: {} panicked: {}", text.len(), imp.name(), stage, p.msg)),
+        }
+    }
+    if executed >= 3 {
+        ctx.class("executed");
+        ctx.nontrivial(fnv(text.as_bytes()));
     }
 }
 
@@ -175,7 +279,7 @@ impl Check for C07Check {
     fn rule(&self) -> String {
         format!(
             "Phase operators-on-boundary-values: every binary operator ({} spellings incl. ranges, concatenation, cast, partial, apply forms, backtick infix) applied to every ordered pair of a pool of {} operand values of every type and shape plus boundary literals (i32 limits, 1e308, 1e999, zeros, subnormal, shift counts 31/32/33/-1, empty and multi-byte text and bytes, reversed / negative / fractional / huge ranges and slices), and every prefix/suffix operator on each; \
-             phase deep-data: nested groups, nested applied expressions, long pair chains, nested and long lists and concatenations compared / cast / measured at depths up to 400; phases class-sequences (L<=4), token-soups, random operator expressions (all operators) and random core ASTs: every accepted program is executed. \
+             phase deep-data: nested groups, nested applied expressions, pair chains, nested and long lists, concatenations nested to the left and to the right measured / indexed / looked up in / cast / compared, at depths up to 2000, built and run on a thread with a 256 KiB stack (stack use growing with the depth of a value aborts the worker); phases class-sequences (L<=4), token-soups, random operator expressions (all operators) and random core ASTs: every accepted program is executed. \
              Each program runs on SimpleGarnishData and BasicGarnishData, without host callbacks and with callbacks that accept deferred operations and resolve identifiers, for at most 3000 steps, and its result is read back. Oracle: no step unwinds (catch_unwind) and no worker aborts; Err results are fine. \
              Non-trivial = at least 3 instructions executed; distinct = distinct program texts.",
             ops().len(),
@@ -190,7 +294,7 @@ impl Check for C07Check {
         let o = ops().len() as u64;
         vec![
             Phase::exhaustive("operators-on-boundary-values", p * p * o + p * (PREFIX_OPS.len() + SUFFIX_OPS.len()) as u64).with_chunk(2048),
-            Phase::exhaustive("deep-data", 9 * 6).with_chunk(1).with_deadline_ms(30_000),
+            Phase::exhaustive("deep-data", (DEEP_KINDS * DEEP_SIZES.len()) as u64).with_chunk(1).with_deadline_ms(30_000),
             Phase::exhaustive("class-sequences", class_sequence_count(tier.pick(4, 5))).with_chunk(8192),
             Phase::random("token-soups", tier.pick(60_000, 2_000_000), 120).with_min_tape(6).with_chunk(1024),
             Phase::random("random-operator-expressions", tier.pick(60_000, 2_000_000), 96).with_min_tape(16).with_chunk(1024),
@@ -199,6 +303,18 @@ impl Check for C07Check {
             // quick: every 3rd composition (the index is scrambled by a stride coprime to the space), thorough: all
             Phase::exhaustive("two-level-compositions", compose_count() / tier.pick(4, 1)).with_chunk(4096),
         ]
+    }
+    fn abort_label(&self, _tier: Tier, phase: usize, input: &Input) -> Option<String> {
+        match (phase, input) {
+            (1, Input::Index(i)) => Some(format!("deep-data:{}", DEEP_KIND_NAMES[*i as usize / DEEP_SIZES.len()])),
+            _ => None,
+        }
+    }
+    fn render(&self, _tier: Tier, phase: usize, input: &Input) -> String {
+        match (phase, input) {
+            (1, Input::Index(i)) => format!("deep data: {} at n = {}", DEEP_KIND_NAMES[*i as usize / DEEP_SIZES.len()], DEEP_SIZES[*i as usize % DEEP_SIZES.len()]),
+            _ => format!("{:?}", input),
+        }
     }
     fn run(&self, tier: Tier, phase: usize, input: &Input, ctx: &mut CaseCtx) {
         match (phase, input) {
@@ -235,10 +351,10 @@ impl Check for C07Check {
                 execute_all(&src, ctx, 3000);
             }
             (1, Input::Index(i)) => {
-                let kind = (*i / 6) as usize;
-                let n = [1usize, 2, 8, 50, 150, 400][(*i % 6) as usize];
+                let kind = *i as usize / DEEP_SIZES.len();
+                let n = DEEP_SIZES[*i as usize % DEEP_SIZES.len()];
                 ctx.class("deep-data");
-                execute_all(&deep(n, kind), ctx, 50_000);
+                execute_deep(&deep(n, kind), ctx, 100_000);
             }
             (2, Input::Index(i)) => execute_all(&class_sequence(*i, tier.pick(4, 5)), ctx, 300),
             (3, Input::Tape(t)) => execute_all(&token_soup(&mut Tape::new(t), 40), ctx, 2000),
